@@ -530,6 +530,9 @@ func checkC09(p *Prog, r *Report) {
 	for _, u := range o.Undecided {
 		r.Unknown("ownership analysis", "", u)
 	}
+	// ---- R9.8 a superseded cycle's socket is not adopted by the next generation --------------------------------
+	r.Rule("R9.8", "The task that takes a gathered socket into the agent re-checks the gather cycle's context inside the task (rule of C06 R6.11): the socket of a cycle that Restart superseded is released on that path (decided by R9.1), not started as a candidate of the new generation, where it would stay open until the next wipe.", 2)
+	checkCycleTasksRecheck(p, r)
 	r.Assume("connections wrapped by turn.NewSTUNConn, tls.Client, dtls.Client(WithOptions) and fakenet.PacketConn are closed by closing the wrapper (read in those packages)")
 	r.Assume("taskloop.Loop.Run returns nil iff the task ran to completion (decided by C10 R10.1)")
 }
